@@ -637,7 +637,9 @@ class Program:
         if fid in self._mods:
             return self._mods[fid]
         _seen = _seen or set()
-        if fid in _seen or _depth > 8:
+        if fid in _seen:
+            return set()     # recursion: the cycle's other members contribute their own stores
+        if _depth > 10:
             return None
         _seen = _seen | {fid}
         out = set()
@@ -646,10 +648,15 @@ class Program:
             if k == "BinaryOperator" and x["op"] == "=" or k == "CompoundAssignOperator" or \
                     (k == "UnaryOperator" and x["op"] in ("post++", "pre++", "post--", "pre--", "&")):
                 l = strip(x["c"][0])
+                sub = False
                 while l is not None and l["k"] == "ArraySubscriptExpr":
                     l = strip(l["c"][0])
+                    sub = True
                 if l is not None and l["k"] == "MemberExpr":
-                    out.add(l["n"])
+                    if k == "UnaryOperator" and x["op"] == "&" and sub:
+                        pass     # &X->F[i]: address of an element, the field itself is not stored
+                    else:
+                        out.add(l["n"])
                 elif l is not None and l["k"] == "UnaryOperator" and l["op"] == "*" and k != "UnaryOperator":
                     t = (l.get("t") or "")
                     if "struct" in t or t in self.records:
